@@ -44,7 +44,14 @@ use crate::common::*;
 use crate::node::*;
 use ckb_app_config::{BlockAssemblerConfig, NetworkConfig};
 use ckb_chain::ChainServiceScope;
-use ckb_chain_spec::consensus::Consensus;
+use ckb_chain_spec::consensus::{build_genesis_epoch_ext, Consensus, ConsensusBuilder, ProposalWindow};
+use ckb_dao_utils::genesis_dao_data;
+use ckb_test_chain_utils::{always_success_cell, create_always_success_tx};
+use ckb_types::bytes::Bytes;
+use ckb_types::core::{capacity_bytes, BlockBuilder, Capacity, EpochNumberWithFraction, TransactionBuilder};
+use ckb_types::packed::{CellInput, CellOutput, OutPoint};
+use ckb_types::utilities::{compact_to_difficulty, difficulty_to_compact};
+use ckb_types::U256;
 use ckb_jsonrpc_types::ScriptHashType;
 use ckb_network::{Flags, NetworkController, NetworkService, NetworkState, network::TransportType};
 use ckb_shared::{Shared, SharedBuilder};
@@ -152,6 +159,19 @@ struct Blk {
     ids: Vec<u64>,
     /// committed tx ids
     committed: Vec<u64>,
+    /// the block's own proposals and those of its embedded uncle (None: no uncle embedded)
+    own: Vec<u64>,
+    uncle: Option<Vec<u64>>,
+}
+
+impl Blk {
+    /// the block token of the node-level lines: `<own>` or `<own>+<uncle's>`
+    fn token(&self) -> String {
+        match &self.uncle {
+            None => show_list(&self.own),
+            Some(u) => format!("{}+{}", show_list(&self.own), show_list(u)),
+        }
+    }
 }
 
 /// what one new block shall carry
@@ -160,6 +180,9 @@ struct Spec {
     ids: Vec<u64>,
     uncle_ids: Option<Vec<u64>>,
     commits: Vec<u64>,
+    /// family `heavy`: a timestamp far after the parent's (the epoch's last block: a long epoch, so
+    /// the next epoch's difficulty drops)
+    slow: bool,
 }
 
 struct Sim {
@@ -180,12 +203,25 @@ struct Sim {
     uniq: u64,
     /// set after an oracle failure that leaves node and harness out of step
     dead: bool,
+    /// family `heavy`: (epoch-0 length, epoch duration target in s, genesis difficulty) of a consensus
+    /// with the dynamic difficulty adjustment on; the best chain is then the one with the larger
+    /// total difficulty, which may be the SHORTER one
+    uneven: Option<(u64, u64, u64)>,
+    /// total difficulty of every block built (sum of the headers' difficulties from genesis)
+    tds: HashMap<Byte32, U256>,
 }
 
 impl Sim {
     fn new(base: &Path, tag: &str, window: (u64, u64), n_tx: u64, with_pool: bool) -> Sim {
+        Sim::new_on(base, tag, window, n_tx, with_pool, None)
+    }
+
+    fn new_on(base: &Path, tag: &str, window: (u64, u64), n_tx: u64, with_pool: bool, uneven: Option<(u64, u64, u64)>) -> Sim {
         let cfg = NodeCfg { epoch_len: 1000, window, genesis_cells: n_tx, with_pool: false, ..Default::default() };
-        let consensus = make_consensus(&cfg);
+        let consensus = match uneven {
+            None => make_consensus(&cfg),
+            Some((gl, t, d0)) => uneven_consensus(window, n_tx, gl, t, d0),
+        };
         let dir = base.join(tag);
         let _ = std::fs::remove_dir_all(&dir);
         let node = N::start(&dir.join("node"), consensus.clone(), with_pool);
@@ -207,12 +243,15 @@ impl Sim {
             salt: 0,
             uniq: 0,
             dead: false,
+            uneven,
+            tds: HashMap::new(),
         };
+        sim.tds.insert(consensus.genesis_hash(), consensus.genesis_block().header().difficulty());
         for i in (1..=n_tx).chain(100..1200) {
             let p = sim.pid(i);
             sim.idmap.insert(p, i);
         }
-        sim.chain.push(Blk { hash: consensus.genesis_hash(), ids: vec![], committed: vec![] });
+        sim.chain.push(Blk { hash: consensus.genesis_hash(), ids: vec![], committed: vec![], own: vec![], uncle: None });
         sim
     }
 
@@ -220,6 +259,10 @@ impl Sim {
         let (c, f) = self.window;
         out.begin_case(&format!("{label} w={c},{f}"));
         out.op(&format!("cfg {c} {f}"), &format!("ok {c} {f}"));
+        if let Some((gl, t, d0)) = self.uneven {
+            // recorded for the replay (the model answers ok)
+            out.op(&format!("nuneven {gl} {t} {d0}"), "ok");
+        }
         let l = self.view_line(out, "nboot");
         out.op("nboot", &l);
     }
@@ -339,17 +382,23 @@ impl Sim {
 
     /// build one block on `parent`: own ids, optionally ONE embedded uncle (a sibling of the parent)
     /// carrying `uncle_ids`, committing the txs `commits`
-    fn build(&mut self, parent: &Byte32, spec: &Spec) -> (BlockView, Vec<u64>) {
+    fn build(&mut self, parent: &Byte32, spec: &Spec) -> (BlockView, Vec<u64>, Option<Vec<u64>>) {
         self.salt += 1;
         let mut union: Vec<u64> = spec.ids.clone();
         let mut uncles = vec![];
+        let mut eff_uncle: Option<Vec<u64>> = None;
         if let Some(uids) = &spec.uncle_ids {
             let p = self.builder.block(parent).clone();
-            if p.number() >= 1 {
+            // dynamic difficulty: an uncle must be of the including block's epoch (UnclesVerifier:
+            // InvalidTarget / InvalidDifficultyEpoch), so the first block of an epoch embeds no uncle (its
+            // uncle would be the last block of the previous epoch)
+            let crosses_epoch = self.uneven.is_some() && p.epoch().index() + 1 == p.epoch().length();
+            if p.number() >= 1 && !crosses_epoch {
                 self.salt += 1;
                 let us = BlockSpec { proposals: uids.iter().map(|i| self.pid(*i)).collect(), salt: 1_000_000 + self.salt, ..Default::default() };
                 let u = self.builder.build(&p.parent_hash(), &us);
                 uncles.push(u.as_uncle());
+                eff_uncle = Some(uids.clone());
                 for i in uids {
                     if !union.contains(i) {
                         union.push(*i);
@@ -362,9 +411,22 @@ impl Sim {
             uncles,
             txs: spec.commits.iter().map(|i| self.txs[*i as usize - 1].clone()).collect(),
             salt: self.salt,
+            timestamp: if spec.slow {
+                let t = self.uneven.map(|u| u.1).unwrap_or(8);
+                Some(self.builder.block(parent).timestamp() + 16 * t * 1000)
+            } else {
+                None
+            },
             ..Default::default()
         };
-        (self.builder.build(parent, &bs), union)
+        let blk = self.builder.build(parent, &bs);
+        let ptd = self.tds.get(parent).cloned().unwrap_or_default();
+        self.tds.insert(blk.hash(), ptd + compact_to_difficulty(blk.compact_target()));
+        (blk, union, eff_uncle)
+    }
+
+    fn td(&self, h: &Byte32) -> U256 {
+        self.tds.get(h).cloned().unwrap_or_default()
     }
 
     /// Deliver new blocks on top of `base` (a full chain from genesis: the main chain itself for an
@@ -378,16 +440,22 @@ impl Sim {
                 break;
             }
             let parent = cand.last().unwrap().hash.clone();
-            let (blk, union) = self.build(&parent, spec);
+            let (blk, union, unc) = self.build(&parent, spec);
             let r = self.n().process(&blk);
             if r != Ok(true) {
                 out.oracle_fail("node-rejects-valid-block", &format!("{what}: block {} on {}: {:?}", blk.number(), cand.len() - 1, r));
                 self.dead = true;
                 break;
             }
-            cand.push(Blk { hash: blk.hash(), ids: union, committed: spec.commits.clone() });
+            cand.push(Blk { hash: blk.hash(), ids: union, committed: spec.commits.clone(), own: spec.ids.clone(), uncle: unc });
             let is_tip = self.n().tip_hash() == blk.hash();
-            let expect_tip = cand.len() > self.chain.len();
+            // permanent difficulty: the longer chain; dynamic difficulty (family `heavy`): the one with
+            // the larger total difficulty (the first received wins a tie)
+            let expect_tip = if self.uneven.is_some() { self.td(&blk.hash()) > self.td(&self.chain.last().unwrap().hash) } else { cand.len() > self.chain.len() };
+            if spec.slow {
+                // recorded for the replay (the model answers ok)
+                out.op("nslow", "ok");
+            }
             if is_tip != expect_tip {
                 out.oracle_fail("node-tip-unexpected", &format!("{what}: block {} is_tip={is_tip}, delivered chain length {} against main {}", blk.number(), cand.len(), self.chain.len()));
                 self.dead = true;
@@ -403,7 +471,7 @@ impl Sim {
                 let mut op = format!("nswitch {common}");
                 for b in &cand[common + 1..] {
                     op.push(' ');
-                    op.push_str(&show_list(&b.ids));
+                    op.push_str(&b.token());
                 }
                 self.chain = cand.clone();
                 let l = self.view_line(out, &format!("{what}: {op}"));
@@ -484,7 +552,7 @@ impl Sim {
         let expect_ok = ids.iter().all(|i| sset.contains(i));
         let tip = self.tip();
         let parent = self.chain.last().unwrap().hash.clone();
-        let (blk, union) = self.build(&parent, spec);
+        let (blk, union, unc) = self.build(&parent, spec);
         let r = self.n().process(&blk);
         let ok = r == Ok(true);
         if ok != expect_ok {
@@ -501,8 +569,8 @@ impl Sim {
         out.op(&format!("verify {}", show_list(ids)), if ok { "ok" } else { "invalid" });
         out.count(if ok { "node-commit-accepted" } else { "node-commit-rejected" });
         if ok {
-            self.chain.push(Blk { hash: blk.hash(), ids: union.clone(), committed: ids.to_vec() });
-            let op = format!("nswitch {tip} {}", show_list(&union));
+            self.chain.push(Blk { hash: blk.hash(), ids: union.clone(), committed: ids.to_vec(), own: spec.ids.clone(), uncle: unc });
+            let op = format!("nswitch {tip} {}", self.chain.last().unwrap().token());
             let l = self.view_line(out, &op);
             out.op(&op, &l);
         } else if self.n().tip_hash() != parent {
@@ -531,7 +599,7 @@ fn gen_ids(rng: &mut Rng, n_tx: u64) -> Vec<u64> {
 }
 
 fn gen_spec(rng: &mut Rng, n_tx: u64, uncle_chance: (u64, u64)) -> Spec {
-    Spec { ids: gen_ids(rng, n_tx), uncle_ids: if rng.chance(uncle_chance.0, uncle_chance.1) { Some(gen_ids(rng, n_tx)) } else { None }, commits: vec![] }
+    Spec { ids: gen_ids(rng, n_tx), uncle_ids: if rng.chance(uncle_chance.0, uncle_chance.1) { Some(gen_ids(rng, n_tx)) } else { None }, commits: vec![], slow: false }
 }
 
 // ------------------------------------------------------------------------------------------------
@@ -633,7 +701,7 @@ fn node_case(out: &mut Out, rng: &mut Rng, base: &Path, case_no: usize, n_ops: u
                 let cands: Vec<u64> = free.iter().copied().filter(|i| wset.contains(i) || wgap.contains(i)).collect();
                 let id = if !cands.is_empty() && rng.chance(4, 5) { *rng.pick(&cands) } else { *rng.pick(&free) };
                 let own = gen_ids(rng, N_TX);
-                if sim.verify(out, &Spec { ids: own, uncle_ids: None, commits: vec![id] }, "random") {
+                if sim.verify(out, &Spec { ids: own, uncle_ids: None, commits: vec![id], slow: false }, "random") {
                     commits_ok += 1;
                 } else {
                     commits_bad += 1;
@@ -742,7 +810,7 @@ fn edge_case(out: &mut Out, rng: &mut Rng, base: &Path, window: (u64, u64)) {
                 out.count(&format!("edge accept {}", it.label));
             } else {
                 out.count(&format!("edge reject {}", it.label));
-                if sim.verify(out, &Spec { ids: vec![], uncle_ids: None, commits: vec![it.tx] }, &it.label.clone()) {
+                if sim.verify(out, &Spec { ids: vec![], uncle_ids: None, commits: vec![it.tx], slow: false }, &it.label.clone()) {
                     // a commitment outside the window was accepted: node and plan are out of step
                     sim.dead = true;
                     break;
@@ -760,7 +828,7 @@ fn edge_case(out: &mut Out, rng: &mut Rng, base: &Path, window: (u64, u64)) {
             let u = sim.unique_id();
             own.push(u);
         }
-        let spec = Spec { ids: own, uncle_ids: if unc.is_empty() { None } else { Some(unc) }, commits: good.clone() };
+        let spec = Spec { ids: own, uncle_ids: if unc.is_empty() { None } else { Some(unc) }, commits: good.clone(), slow: false };
         if !good.is_empty() {
             // (b) for the accepted side: the block that stays commits them all
             accepted += good.len();
@@ -806,7 +874,7 @@ fn fork_spec(sim: &mut Sim, rng: &mut Rng, uncle: bool) -> Spec {
         ids.push(100 + rng.below(4));
     }
     let uncle_ids = if uncle && rng.chance(1, 4) { Some(vec![sim.unique_id(), 100 + rng.below(4)]) } else { None };
-    Spec { ids, uncle_ids, commits: vec![] }
+    Spec { ids, uncle_ids, commits: vec![], slow: false }
 }
 
 fn fork_case(out: &mut Out, rng: &mut Rng, base: &Path, window: (u64, u64), restart_chance: (u64, u64)) {
@@ -992,6 +1060,26 @@ impl Sim {
         let proposed: Vec<u64> = last.iter().filter(|(_, s)| **s == Stage::Proposed).map(|(id, _)| *id).collect();
         let pooled: Vec<u64> = last.keys().copied().collect();
         out.op(&format!("pool {}", show_list(&pooled)), &format!("proposed={}", show_list(&proposed)));
+        // the whole pool, every entry with its stage, against the model's pool (Window.poolReorg /
+        // poolSubmit: remove committed, remove_by_detached_proposal, mine-mode moves, re-admissions)
+        let stages = if last.is_empty() {
+            "-".to_string()
+        } else {
+            last.iter()
+                .map(|(id, s)| {
+                    format!(
+                        "{id}:{}",
+                        match s {
+                            Stage::Pending => "pending",
+                            Stage::Gap => "gap",
+                            Stage::Proposed => "proposed",
+                        }
+                    )
+                })
+                .collect::<Vec<_>>()
+                .join(",")
+        };
+        out.op("pstages", &stages);
         out.count("pool-checked");
     }
 
@@ -1098,14 +1186,14 @@ impl Sim {
         let mut cand = base;
         for (k, spec) in specs.iter().enumerate() {
             let parent = cand.last().unwrap().hash.clone();
-            let (blk, union) = self.build(&parent, spec);
+            let (blk, union, unc) = self.build(&parent, spec);
             let r = self.n().process(&blk);
             if r != Ok(true) {
                 out.oracle_fail("node-rejects-valid-block", &format!("{what}: block {}: {:?}", blk.number(), r));
                 self.dead = true;
                 return;
             }
-            cand.push(Blk { hash: blk.hash(), ids: union, committed: spec.commits.clone() });
+            cand.push(Blk { hash: blk.hash(), ids: union, committed: spec.commits.clone(), own: spec.ids.clone(), uncle: unc });
             let is_tip = self.n().tip_hash() == blk.hash();
             if is_tip != (k + 1 == specs.len()) {
                 out.oracle_fail("node-tip-unexpected", &format!("{what}: block {} is_tip={is_tip}", blk.number()));
@@ -1141,7 +1229,7 @@ impl Sim {
         let mut op = format!("nswitchm {} {common}", show_list(&watch));
         for b in &cand[common + 1..] {
             op.push(' ');
-            op.push_str(&show_list(&b.ids));
+            op.push_str(&b.token());
         }
         let l = self.view_line(out, &format!("{what}: {op}"));
         out.op(&op, &format!("moved={} {l}", show_list(&moved)));
@@ -1204,7 +1292,7 @@ fn pool_case(out: &mut Out, rng: &mut Rng, base: &Path, window: (u64, u64), no: 
             own.push(sim.unique_id());
         }
         let ch = sim.chain.clone();
-        sim.deliver_pool(out, ch, &[Spec { ids: own, uncle_ids: if unc.is_empty() { None } else { Some(unc) }, commits: vec![] }], &mut pooled, "planned proposals");
+        sim.deliver_pool(out, ch, &[Spec { ids: own, uncle_ids: if unc.is_empty() { None } else { Some(unc) }, commits: vec![], slow: false }], &mut pooled, "planned proposals");
     }
     // 4. submissions at tip T: set only / gap only / both / neither / expired
     for (id, want) in [(a, Stage::Proposed), (b, Stage::Gap), (ab, Stage::Proposed), (n, Stage::Pending), (e, Stage::Pending)] {
@@ -1224,7 +1312,7 @@ fn pool_case(out: &mut Out, rng: &mut Rng, base: &Path, window: (u64, u64), no: 
     let root = sim.chain.clone();
     if !sim.dead {
         let ch = sim.chain.clone();
-        sim.deliver_pool(out, ch, &[Spec { ids: vec![m], uncle_ids: None, commits: vec![a, ab] }], &mut pooled, "A1 commits");
+        sim.deliver_pool(out, ch, &[Spec { ids: vec![m], uncle_ids: None, commits: vec![a, ab], slow: false }], &mut pooled, "A1 commits");
     }
     for _ in 1..c {
         if sim.dead {
@@ -1274,6 +1362,324 @@ fn pool_case(out: &mut Out, rng: &mut Rng, base: &Path, window: (u64, u64), no: 
     sim.finish();
 }
 
+
+// ------------------------------------------------------------------------------------------------
+// family `poolr`: random histories of a node WITH the tx-pool service
+// ------------------------------------------------------------------------------------------------
+
+/// Random interleavings of submissions, extensions (proposals in the block or in an embedded uncle,
+/// commitments of pooled Proposed transactions) and reorganisations of every depth class relative to
+/// the window (the first block of the new branch may commit transactions that are committable at the
+/// fork point; transactions committed only on the abandoned branch are re-admitted). After every step
+/// the WHOLE pool (every entry with its stage) is compared with the model's `poolReorg` / `poolSubmit`
+/// and with the stored window, and the block template with the pooled committable ids.
+fn poolr_case(out: &mut Out, rng: &mut Rng, base: &Path, window: (u64, u64), no: usize, n_ops: usize) {
+    let (c, f) = window;
+    let n_tx = 12u64;
+    let mut sim = Sim::new(base, &format!("poolr-{c}-{f}-{no}"), window, n_tx, true);
+    sim.begin(out, "poolr");
+    let mut pooled: BTreeSet<u64> = BTreeSet::new();
+    let (mut reorgs, mut commits, mut readmits, mut subs) = (0, 0, 0, 0);
+    let prop_ids = |rng: &mut Rng, sim: &mut Sim| -> Vec<u64> {
+        let mut v = vec![];
+        for _ in 0..rng.below(4) {
+            let id = rng.range(1, n_tx);
+            if !v.contains(&id) {
+                v.push(id);
+            }
+        }
+        if rng.chance(1, 3) {
+            v.push(sim.unique_id());
+        }
+        v
+    };
+    for _ in 0..n_ops {
+        if sim.dead {
+            break;
+        }
+        let tip = sim.tip();
+        match rng.below(10) {
+            0..=4 => {
+                // one more block; sometimes it commits pooled transactions that are committable now
+                let (sset, _, _) = sim.store_window();
+                let done = sim.committed_on_main();
+                let cands: Vec<u64> = (1..=n_tx).filter(|i| sset.contains(i) && !done.contains(i)).collect();
+                let mut cm: Vec<u64> = vec![];
+                if !cands.is_empty() && rng.chance(1, 2) {
+                    for i in &cands {
+                        if rng.chance(1, 2) && cm.len() < 3 {
+                            cm.push(*i);
+                        }
+                    }
+                }
+                commits += cm.len();
+                let ids = prop_ids(rng, &mut sim);
+                let uncle_ids = if tip >= 1 && rng.chance(1, 4) { Some(prop_ids(rng, &mut sim)) } else { None };
+                let ch = sim.chain.clone();
+                sim.deliver_pool(out, ch, &[Spec { ids, uncle_ids, commits: cm, slow: false }], &mut pooled, "poolr extend");
+                out.count("poolr-extend");
+            }
+            5..=7 => {
+                let done = sim.committed_on_main();
+                let free: Vec<u64> = (1..=n_tx).filter(|i| !done.contains(i) && !pooled.contains(i)).collect();
+                if free.is_empty() {
+                    continue;
+                }
+                // biased to ids that are in some part of the window now (Gap / Proposed at submission)
+                let (sset, sgap, _) = sim.store_window();
+                let in_gap: Vec<u64> = free.iter().copied().filter(|i| sgap.contains(i)).collect();
+                let in_set: Vec<u64> = free.iter().copied().filter(|i| sset.contains(i)).collect();
+                let id = if !in_gap.is_empty() && rng.chance(1, 2) {
+                    *rng.pick(&in_gap)
+                } else if !in_set.is_empty() && rng.chance(1, 2) {
+                    *rng.pick(&in_set)
+                } else {
+                    *rng.pick(&free)
+                };
+                sim.submit(out, id, &mut pooled);
+                subs += 1;
+                if !sim.dead {
+                    sim.check_pool(out, &pooled.clone(), "poolr submit");
+                }
+            }
+            _ => {
+                if tip == 0 {
+                    continue;
+                }
+                let depth = match rng.below(5) {
+                    0 => 1,
+                    1 => c,
+                    2 => rng.range(c, f + 1),
+                    3 => f + rng.below(3),
+                    _ => rng.range(1, tip),
+                }
+                .min(tip)
+                .min(8)
+                .max(1);
+                let common = (tip - depth) as usize;
+                let prefix = sim.chain[..=common].to_vec();
+                // the first block of the branch may commit what is committable at the fork point
+                let (pset, _) = sim.window_of(&prefix);
+                let pdone: BTreeSet<u64> = prefix.iter().flat_map(|b| b.committed.iter().copied()).collect();
+                let cm: Vec<u64> = (1..=n_tx).filter(|i| pset.contains(i) && !pdone.contains(i) && rng.chance(1, 3)).take(2).collect();
+                let lost: BTreeSet<u64> = sim.chain[common + 1..].iter().flat_map(|b| b.committed.iter().copied()).filter(|i| !cm.contains(i)).collect();
+                readmits += lost.len();
+                let mut specs: Vec<Spec> = vec![];
+                for k in 0..=depth {
+                    let ids = prop_ids(rng, &mut sim);
+                    specs.push(Spec { ids, uncle_ids: None, commits: if k == 0 { cm.clone() } else { vec![] }, slow: false });
+                }
+                sim.deliver_pool(out, prefix, &specs, &mut pooled, "poolr reorg");
+                reorgs += 1;
+                out.count("poolr-reorg");
+                if depth > f {
+                    out.count("poolr-reorg-deeper-than-window");
+                }
+            }
+        }
+    }
+    if !sim.dead && reorgs > 0 && commits > 0 && subs > 2 {
+        out.nontrivial(format!("poolr w={window:?} reorgs={reorgs} commits={commits} readmits={readmits} subs={subs} len={}", sim.chain.len()));
+    }
+    sim.finish();
+}
+
+// ------------------------------------------------------------------------------------------------
+// family `heavy`: heavier-but-shorter branches through the real chain service
+// ------------------------------------------------------------------------------------------------
+
+/// node.rs `make_consensus` with the dynamic difficulty adjustment switched on (dummy PoW accepts any
+/// header whose compact target is the epoch's): epoch 0 has `gl` blocks (numbers 0..gl-1), the
+/// difficulty of epoch 1 is computed from the duration of epoch 0 on the branch the block is on.
+fn uneven_consensus(window: (u64, u64), n_tx: u64, gl: u64, t: u64, d0: u64) -> Consensus {
+    let (_, _, always_success_script) = always_success_cell();
+    let tx = create_always_success_tx();
+    let cells: Vec<TransactionView> = (0..n_tx)
+        .map(|i| {
+            TransactionBuilder::default()
+                .input(CellInput::new(OutPoint::null(), 0))
+                .output(CellOutput::new_builder().capacity(capacity_bytes!(50_000)).lock(always_success_script.clone()).build())
+                .output_data(Bytes::from(i.to_le_bytes().to_vec()))
+                .build()
+        })
+        .collect();
+    let mut all: Vec<&TransactionView> = vec![&tx];
+    all.extend(cells.iter());
+    let dao = genesis_dao_data(all).unwrap();
+    let compact = difficulty_to_compact(U256::from(d0));
+    let genesis = BlockBuilder::default()
+        .dao(dao)
+        .compact_target(compact)
+        .epoch(EpochNumberWithFraction::new_unchecked(0, 0, 0))
+        .transaction(tx)
+        .transactions(cells)
+        .build();
+    let epoch_reward = capacity_bytes!(1_917_808);
+    let epoch0 = build_genesis_epoch_ext(epoch_reward, compact, gl, t, (1, 40));
+    ConsensusBuilder::new(genesis, epoch0)
+        .initial_primary_epoch_reward(epoch_reward)
+        .epoch_duration_target(t)
+        .permanent_difficulty_in_dummy(false)
+        .tx_proposal_window(ProposalWindow(window.0, window.1))
+        .cellbase_maturity(EpochNumberWithFraction::new(0, 0, 1))
+        .build()
+}
+
+/// One shape: the main chain A leaves epoch 0 through a SLOW last block (epoch 1 on A has a quarter of
+/// the difficulty it has on a branch with a fast epoch 0) and grows `la` light blocks; branch B forks
+/// `k` blocks below the epoch boundary, has a fast last epoch-0 block and needs only `lb < la` heavy
+/// blocks to be the best chain: the tip number goes DOWN by a reorganisation (`reload_proposal_table`
+/// with new_tip < old tip, `finalize` at a lower number, real blocks from the store). Then A grows
+/// until it is heavier again (switch-back, verified blocks re-attached, tip number up), B once more
+/// (down again). Restarts in between. Every view is compared as in the other families.
+fn heavy_case(out: &mut Out, rng: &mut Rng, base: &Path, window: (u64, u64), k: u64, la: u64) {
+    let (c, f) = window;
+    let gl = f + 4 + k;
+    let (t, d0) = (80u64, 1_000_000u64);
+    let mut sim = Sim::new_on(base, &format!("heavy-{c}-{f}-{k}-{la}"), window, 2, false, Some((gl, t, d0)));
+    sim.begin(out, "heavy");
+    // epoch 0 up to the fork point (block gl-1-k), every block with a unique id
+    let n0 = gl - 1 - k;
+    let specs: Vec<Spec> = (0..n0).map(|i| fork_spec(&mut sim, rng, i >= 1)).collect();
+    let g = sim.chain.clone();
+    sim.deliver(out, g, &specs, "heavy base");
+    let root = sim.chain.clone();
+    let common = sim.tip();
+    // A: k blocks to the end of epoch 0, the last one slow; then la blocks of epoch 1
+    let mut specs: Vec<Spec> = (0..k + la).map(|i| fork_spec(&mut sim, rng, i >= 1)).collect();
+    specs[k as usize - 1].slow = true;
+    sim.deliver(out, root.clone(), &specs, "heavy A");
+    let a = sim.chain.clone();
+    if sim.dead {
+        sim.finish();
+        return;
+    }
+    let diff = |sim: &Sim, ch: &[Blk]| compact_to_difficulty(sim.builder.block(&ch.last().unwrap().hash).compact_target());
+    let da = diff(&sim, &a);
+    if rng.chance(1, 2) {
+        sim.restart(out);
+    }
+    // B: k fast blocks to the end of epoch 0, then heavy blocks until B is the best chain
+    let mut b = root.clone();
+    let mut nb = 0u64;
+    let mut moved_down = false;
+    while !sim.dead && sim.chain.last().unwrap().hash == a.last().unwrap().hash && nb < k + la + 2 {
+        let spec = fork_spec(&mut sim, rng, nb >= 1);
+        let before_tip = sim.tip();
+        let ch = sim.deliver(out, b.clone(), &[spec], "heavy B");
+        nb += 1;
+        if ch > 0 {
+            b = sim.chain.clone();
+            if sim.tip() < before_tip {
+                moved_down = true;
+                out.count("heavy-reorg-to-shorter-branch");
+                out.count(&format!("heavy down by {} depth {}", before_tip - sim.tip(), before_tip - common));
+            }
+        } else {
+            b = sim.old.last().cloned().unwrap_or(b);
+        }
+    }
+    if sim.dead {
+        sim.finish();
+        return;
+    }
+    let db = diff(&sim, &b);
+    if !moved_down {
+        // the plan needs a difficulty ratio above la / lb between the branches
+        out.count("heavy-plan-mismatch");
+        eprintln!("heavy plan mismatch: w={window:?} k={k} la={la}: difficulty A {da:#x} B {db:#x}, B blocks {nb}, tip {} vs A {}", sim.tip(), a.len() - 1);
+        sim.finish();
+        return;
+    }
+    sim.restart(out);
+    // A': extend A until it is heavier again (the blocks of A above the fork point were verified before)
+    let mut a2 = a.clone();
+    let mut n = 0;
+    while !sim.dead && sim.chain.last().unwrap().hash == b.last().unwrap().hash && n < 40 {
+        let spec = fork_spec(&mut sim, rng, true);
+        let ch = sim.deliver(out, a2.clone(), &[spec], "heavy A'");
+        n += 1;
+        a2 = if ch > 0 { sim.chain.clone() } else { sim.old.last().cloned().unwrap_or(a2) };
+    }
+    if !sim.dead && sim.chain.last().unwrap().hash == a2.last().unwrap().hash {
+        out.count("heavy-switch-back-to-longer");
+    }
+    if rng.chance(1, 2) && !sim.dead {
+        sim.restart(out);
+    }
+    // B': one or two more heavy blocks: down again, re-attaching verified blocks
+    let mut b2 = b.clone();
+    let mut n = 0;
+    while !sim.dead && sim.chain.last().unwrap().hash == a2.last().unwrap().hash && n < 6 {
+        let spec = fork_spec(&mut sim, rng, true);
+        let before_tip = sim.tip();
+        let ch = sim.deliver(out, b2.clone(), &[spec], "heavy B'");
+        n += 1;
+        if ch > 0 {
+            b2 = sim.chain.clone();
+            if sim.tip() < before_tip {
+                out.count("heavy-reorg-to-shorter-branch");
+                out.count("heavy-switch-back-to-shorter");
+            }
+        } else {
+            b2 = sim.old.last().cloned().unwrap_or(b2);
+        }
+    }
+    if !sim.dead {
+        if rng.chance(1, 2) {
+            sim.restart(out);
+        }
+        out.nontrivial(format!("heavy w={window:?} k={k} la={la} len={}", sim.chain.len()));
+    }
+    sim.finish();
+}
+
+// ------------------------------------------------------------------------------------------------
+// family `rst`: a restart at EVERY height, for window sizes of every kind relative to the chain
+// ------------------------------------------------------------------------------------------------
+
+/// The chain grows block by block from genesis to `top`; after every block the node is stopped and
+/// started on the same directory (`init_proposal_table`), the view before = the view after = the
+/// window of the stored chain. Then the chain is cut back into the region where the arithmetic
+/// saturates (a truncation to a height ≤ w_close, to 1, to 0), restarted there, and grown again on a
+/// new branch. Windows: w_far ≥ top (the window reaches genesis all the time), w_close ≥ top (nothing
+/// ever committable), w_close = w_far, the default, small ones.
+fn rst_case(out: &mut Out, rng: &mut Rng, base: &Path, window: (u64, u64), top: u64, no: usize) {
+    let (c, f) = window;
+    let mut sim = Sim::new(base, &format!("rst-{c}-{f}-{no}"), window, 2, false);
+    sim.begin(out, "rst");
+    sim.restart(out); // a restart on the genesis-only store
+    let grow = |sim: &mut Sim, out: &mut Out, rng: &mut Rng, upto: u64, what: &str| {
+        while !sim.dead && sim.tip() < upto {
+            let spec = fork_spec(sim, rng, sim.tip() >= 1);
+            let ch = sim.chain.clone();
+            sim.deliver(out, ch, &[spec], what);
+            if !sim.dead {
+                sim.restart(out);
+            }
+        }
+    };
+    grow(&mut sim, out, rng, top, "rst grow");
+    // down into the saturating region and up again
+    let mut targets: Vec<u64> = vec![c.min(top - 1), c.saturating_sub(1).min(top - 1), 1, 0];
+    targets.dedup();
+    let target = *rng.pick(&targets);
+    if !sim.dead && target < sim.tip() {
+        sim.truncate(out, target);
+        if !sim.dead {
+            sim.restart(out);
+        }
+        let upto = (target + c + 1).min(top);
+        grow(&mut sim, out, rng, upto, "rst regrow");
+    }
+    if !sim.dead {
+        let kind = if c >= top + 1 { "close>=tip" } else if f >= top + 1 { "far>=tip" } else if c == f { "close=far" } else { "inside" };
+        out.count(&format!("rst window {kind}"));
+        out.nontrivial(format!("rst w={window:?} top={top} cut={target}"));
+    }
+    sim.finish();
+}
+
 // ------------------------------------------------------------------------------------------------
 
 // ------------------------------------------------------------------------------------------------
@@ -1289,21 +1695,29 @@ fn parse_ids(s: &str) -> Vec<u64> {
     if s == "-" { vec![] } else { s.split(',').map(|x| x.parse().expect("id")).collect() }
 }
 
+/// a block token `<own>` or `<own>+<uncle's>` (older recordings carry the union ids only)
+fn parse_blk(s: &str) -> (Vec<u64>, Option<Vec<u64>>) {
+    match s.split_once('+') {
+        None => (parse_ids(s), None),
+        Some((o, u)) => (parse_ids(o), Some(parse_ids(u))),
+    }
+}
+
 impl Sim {
     /// base chain and remaining specs for a recorded `nswitch <common> <ids>*`
-    fn replay_base(&self, common: usize, branch: &[Vec<u64>]) -> (Vec<Blk>, Vec<Spec>) {
+    fn replay_base(&self, common: usize, branch: &[(Vec<u64>, Option<Vec<u64>>)]) -> (Vec<Blk>, Vec<Spec>) {
         let mut best: (usize, Vec<Blk>) = (0, self.chain[..=common].to_vec());
         for o in &self.old {
             if o.len() <= common + 1 || o[common].hash != self.chain[common].hash {
                 continue;
             }
-            let k = o[common + 1..].iter().zip(branch.iter()).take_while(|(b, ids)| &b.ids == *ids).count();
+            let k = o[common + 1..].iter().zip(branch.iter()).take_while(|(b, t)| b.own == t.0 && b.uncle == t.1).count();
             // the whole abandoned chain must be re-used (its tip is the parent of the first new block)
             if k > best.0 && k < branch.len() && common + 1 + k == o.len() {
                 best = (k, o.clone());
             }
         }
-        let specs = branch[best.0..].iter().map(|ids| Spec { ids: ids.clone(), ..Default::default() }).collect();
+        let specs = branch[best.0..].iter().map(|t| Spec { ids: t.0.clone(), uncle_ids: t.1.clone(), ..Default::default() }).collect();
         (best.1, specs)
     }
 }
@@ -1313,6 +1727,7 @@ fn replay_case(out: &mut Out, base: &Path, lines: &[String], with_pool: bool) {
     let mut label = "replay".to_string();
     let mut pooled: BTreeSet<u64> = BTreeSet::new();
     let mut pending_commits: Vec<u64> = vec![];
+    let mut next_slow = false;
     let mut i = 0;
     while i < lines.len() {
         let ts: Vec<&str> = lines[i].split(' ').collect();
@@ -1329,7 +1744,14 @@ fn replay_case(out: &mut Out, base: &Path, lines: &[String], with_pool: bool) {
                 if let Some(s) = sim.take() {
                     s.finish();
                 }
-                let mut s = Sim::new(base, &format!("replay-{i}"), w, 24, with_pool);
+                let uneven = lines.get(i).and_then(|l| {
+                    let t: Vec<&str> = l.split(' ').collect();
+                    if t[0] == "nuneven" && t.len() == 4 { Some((t[1].parse().ok()?, t[2].parse().ok()?, t[3].parse().ok()?)) } else { None }
+                });
+                if uneven.is_some() {
+                    i += 1;
+                }
+                let mut s = Sim::new_on(base, &format!("replay-{i}"), w, 24, with_pool, uneven);
                 s.begin(out, &label);
                 sim = Some(s);
                 pooled.clear();
@@ -1348,11 +1770,14 @@ fn replay_case(out: &mut Out, base: &Path, lines: &[String], with_pool: bool) {
                             sim.dead = true;
                             continue;
                         }
-                        let branch: Vec<Vec<u64>> = ts[2..].iter().map(|x| parse_ids(x)).collect();
+                        let branch: Vec<(Vec<u64>, Option<Vec<u64>>)> = ts[2..].iter().map(|x| parse_blk(x)).collect();
                         if branch.is_empty() {
                             sim.truncate(out, common as u64);
                         } else {
-                            let (b, specs) = sim.replay_base(common, &branch);
+                            let (b, mut specs) = sim.replay_base(common, &branch);
+                            if let Some(first) = specs.first_mut() {
+                                first.slow = std::mem::take(&mut next_slow);
+                            }
                             sim.deliver(out, b, &specs, "replay");
                         }
                     }
@@ -1365,6 +1790,7 @@ fn replay_case(out: &mut Out, base: &Path, lines: &[String], with_pool: bool) {
                         let commits = parse_ids(ts[1]);
                         // an accepted block is followed by its own `nswitch <tip> <ids>` line
                         let mut ids = vec![];
+                        let mut uncle_ids = None;
                         // (in the recording a block is accepted iff all its commitments are in the
                         // stored window, or the case ends there)
                         let (sset, _, _) = sim.store_window();
@@ -1372,11 +1798,11 @@ fn replay_case(out: &mut Out, base: &Path, lines: &[String], with_pool: bool) {
                         if let Some(next) = lines.get(i).filter(|_| accepted) {
                             let nt: Vec<&str> = next.split(' ').collect();
                             if nt[0] == "nswitch" && nt.len() == 3 && nt[1].parse::<u64>().ok() == Some(sim.tip()) {
-                                ids = parse_ids(nt[2]);
+                                (ids, uncle_ids) = parse_blk(nt[2]);
                                 i += 1;
                             }
                         }
-                        sim.verify(out, &Spec { ids, uncle_ids: None, commits }, "replay");
+                        sim.verify(out, &Spec { ids, uncle_ids, commits, slow: false }, "replay");
                     }
                     "status" => {
                         let id: u64 = ts[1].parse().expect("id");
@@ -1393,7 +1819,7 @@ fn replay_case(out: &mut Out, base: &Path, lines: &[String], with_pool: bool) {
                             sim.dead = true;
                             continue;
                         }
-                        let mut specs: Vec<Spec> = ts[3..].iter().map(|x| Spec { ids: parse_ids(x), ..Default::default() }).collect();
+                        let mut specs: Vec<Spec> = ts[3..].iter().map(|x| { let t = parse_blk(x); Spec { ids: t.0, uncle_ids: t.1, ..Default::default() } }).collect();
                         assert!(!specs.is_empty(), "nswitchm: no block");
                         specs[0].commits = std::mem::take(&mut pending_commits);
                         let b = sim.chain[..=common].to_vec();
@@ -1405,6 +1831,11 @@ fn replay_case(out: &mut Out, base: &Path, lines: &[String], with_pool: bool) {
                     }
                     "pool" => {
                         sim.check_pool(out, &pooled.clone(), "replay");
+                    }
+                    // printed by check_pool / deliver_pool right after the `pool` line
+                    "pstages" => {}
+                    "nslow" => {
+                        next_slow = true;
                     }
                     other => panic!("C20 node replay: unknown op {other}"),
                 }
@@ -1437,10 +1868,10 @@ pub fn run(opts: &Opts) {
             return;
         }
         let base = scratch_dir(&opts.out, &format!("c20replay{family}"));
-        replay_case(&mut out, &base, &lines, family == "pool");
+        replay_case(&mut out, &base, &lines, family.starts_with("pool"));
         let _ = std::fs::remove_dir_all(&base);
         out.finish("replayed case");
-        if family == "pool" {
+        if family.starts_with("pool") {
             std::process::exit(0);
         }
         return;
@@ -1498,6 +1929,57 @@ pub fn run(opts: &Opts) {
             let _ = std::fs::remove_dir_all(&base);
             // the tx-pool service keeps its runtime tasks alive
             std::process::exit(0);
+        }
+        "poolr" => {
+            let cases = if opts.thorough() { 24 } else { 3 } * opts.scale as usize;
+            for no in 0..cases {
+                let w = *rng.pick(&[(2u64, 4u64), (1, 2), (2, 10), (3, 5), (1, 1), (2, 3)]);
+                poolr_case(&mut out, &mut rng, &base, w, no, 36);
+            }
+            out.finish("poolr cases with a reorganisation, a commitment and more than two submissions (distinct by window and counts)");
+            let _ = std::fs::remove_dir_all(&base);
+            std::process::exit(0);
+        }
+        "heavy" => {
+            // (window, blocks between the fork point and the epoch boundary, light blocks on A)
+            let mut shapes: Vec<((u64, u64), u64, u64)> = vec![((2, 4), 1, 5), ((1, 2), 2, 4), ((2, 10), 3, 6), ((1, 1), 1, 7)];
+            if opts.thorough() {
+                shapes.push(((3, 5), 4, 5));
+            }
+            for _ in 1..k {
+                let w = *rng.pick(&[(2, 4), (1, 2), (2, 10), (1, 1), (3, 5), (2, 3), (1, 6)]);
+                shapes.push((w, rng.range(1, w.1 + 2), rng.range(3, 7)));
+            }
+            if opts.thorough() {
+                for w in [(2u64, 4u64), (1, 2), (2, 10), (1, 1), (3, 5)] {
+                    for kk in [1, w.0, w.0 + 1, w.1, w.1 + 1] {
+                        shapes.push((w, kk, rng.range(3, 7)));
+                    }
+                }
+            }
+            for (w, kk, la) in shapes {
+                heavy_case(&mut out, &mut rng, &base, w, kk, la);
+            }
+            let _ = std::fs::remove_dir_all(&base);
+            out.finish("heavy cases in which a reorganisation moved the tip to a LOWER block number, that ran to the end (distinct by window, fork offset, light blocks, length)");
+        }
+        "rst" => {
+            let mut no = 0;
+            for _ in 0..k {
+                // far >= tip, close >= tip, close = far, default, small, random
+                let rc = rng.range(1, 4);
+                let rw = (rc, rc + rng.range(0, 9));
+                let mut plan: Vec<((u64, u64), u64)> = vec![((2, 30), 5), ((6, 9), 4), ((3, 3), 6), (rw, (rw.1 + 2).min(7))];
+                if opts.thorough() {
+                    plan.extend([((2, 10), 13), ((9, 12), 7), ((1, 1), 4), ((4, 4), 9), ((1, 12), 15), ((1, 2), 5)]);
+                }
+                for (w, top) in plan {
+                    no += 1;
+                    rst_case(&mut out, &mut rng, &base, w, top, no);
+                }
+            }
+            let _ = std::fs::remove_dir_all(&base);
+            out.finish("rst cases that ran to the end: a restart after every block (distinct by window, top height, cut height)");
         }
         other => panic!("C20: unknown family {other}"),
     }
